@@ -10,13 +10,13 @@ Model: tokens and trees are immutable values.  A token t has a class tcls(t), pa
 carriers, operator_of(t) (= t.operator).  `_Operand(signs, token, brackets)` is leaf(signs, token, brackets) and
 `_Operation(operator, left, right)` is opn(operator, left, right).  chain(t) is the sequence (z3 Seq) of operand and operator
 tokens of the chain that starts at the expression token t; seq(tree) the in-order sequence of a tree.  The well-formedness of
-the chain (wfe) is what CompositeBaseToken.get guarantees for an ExpressionToken (C05 shape_is_a_token_set) given the seven
+the chain (wfe) is what CompositeBaseToken.get guarantees for an ExpressionToken (C05 shape_is_a_token_set) given the nine
 token sets of ExpressionToken (K2 obligation C01.Grammar.expression_token_sets).  What is NOT covered: the signs collected
 for a leaf (bounded monitor), the text emitted for the tree (K-S table + PARAM)."""
 from pv.contract import Contract
 from contracts.common import base_registry, z, T
 
-EXPR, OPERAND, ONELEFT, SIGN, OPERATOR, BSTART, BFINISH, NT_OPERAND, NT_OPERATION = range(101, 110)
+EXPR, OPERAND, ONELEFT, SIGN, OPERATOR, BSTART, BFINISH, NT_OPERAND, NT_OPERATION, PCT = range(101, 111)
 
 
 def registry():
@@ -43,7 +43,7 @@ def registry():
     parts = z3.Function('c01_tok_parts', S.V, S.V)
     opof = z3.Function('c01_operator_of', S.V, S.V)
     lvl = z3.Function('c01_level', S.V, I)
-    leaf = z3.Function('c01_leaf', S.V, S.V, S.V, S.V)
+    leaf4 = z3.Function('c01_leaf', S.V, S.V, S.V, S.V, S.V)
     opn = z3.Function('c01_opn', S.V, S.V, S.V, S.V)
     rl = z3.Function('c01_root_level', S.V, I)
     wf = z3.Function('c01_wf_tree', S.V, B)
@@ -52,11 +52,12 @@ def registry():
     def cls_(i):
         return V.Cls(z3.IntVal(i))
     reg.constants = {'OneOperandArithmeticOperatorToken': cls_(SIGN), 'BracketStartToken': cls_(BSTART),
-                     '_Operand': cls_(NT_OPERAND), '_Operation': cls_(NT_OPERATION)}
+                     'PercentOperatorToken': cls_(PCT), '_Operand': cls_(NT_OPERAND), '_Operation': cls_(NT_OPERATION)}
 
     def axioms():
         s, t, b, o, l, r = [z3.Const(n, S.V) for n in ('c01_s', 'c01_t', 'c01_b', 'c01_o', 'c01_l', 'c01_r')]
         q = z3.Const('c01_q', SQ)
+        pc_ = z3.Const('c01_pc', S.V)
         p = parts(t)
 
         def pc(i):
@@ -71,17 +72,19 @@ def registry():
         f_chain = z3.And(ln(p) == 3, operand0, is_operator(1), wfe(at(p, 2)))
         f_br = z3.And(ln(p) == 3, pc(0) == BSTART, wfe(at(p, 1)), pc(2) == BFINISH)
         f_brchain = z3.And(ln(p) == 5, pc(0) == BSTART, wfe(at(p, 1)), pc(2) == BFINISH, is_operator(3), wfe(at(p, 4)))
+        f_brpct = z3.And(ln(p) == 4, pc(0) == BSTART, wfe(at(p, 1)), pc(2) == BFINISH, pc(3) == PCT)
+        f_brpctchain = z3.And(ln(p) == 6, pc(0) == BSTART, wfe(at(p, 1)), pc(2) == BFINISH, pc(3) == PCT, is_operator(4), wfe(at(p, 5)))
         return [
             # trees
-            z3.ForAll([s, t, b], z3.And(rl(leaf(s, t, b)) == 4, wf(leaf(s, t, b))), patterns=[leaf(s, t, b)]),
-            z3.ForAll([s, t, b, q], seqk(leaf(s, t, b), q) == cons(t, q), patterns=[seqk(leaf(s, t, b), q)]),
+            z3.ForAll([s, t, b, pc_], z3.And(rl(leaf4(s, t, b, pc_)) == 4, wf(leaf4(s, t, b, pc_))), patterns=[leaf4(s, t, b, pc_)]),
+            z3.ForAll([s, t, b, pc_, q], seqk(leaf4(s, t, b, pc_), q) == cons(t, q), patterns=[seqk(leaf4(s, t, b, pc_), q)]),
             z3.ForAll([o, l, r, q], seqk(opn(o, l, r), q) == seqk(l, cons(o, seqk(r, q))), patterns=[seqk(opn(o, l, r), q)]),
             z3.ForAll([o, l, r], z3.And(rl(opn(o, l, r)) == lvl(o),
                                         wf(opn(o, l, r)) == z3.And(wf(l), wf(r), 0 <= lvl(o), lvl(o) <= 3, rl(l) >= lvl(o), rl(r) > lvl(o))),
                       patterns=[opn(o, l, r)]),
-            # a well-formed expression token: an object of one of the seven shapes, with the chain it denotes
+            # a well-formed expression token: an object of one of the nine shapes, with the chain it denotes
             z3.ForAll([t], z3.Implies(wfe(t), z3.And(
-                is_('Obj', t), tcls(t) == EXPR, is_('List', p), z3.Or(f_single, f_sign, f_chain, f_br, f_brchain),
+                is_('Obj', t), tcls(t) == EXPR, is_('List', p), z3.Or(f_single, f_sign, f_chain, f_br, f_brchain, f_brpct, f_brpctchain),
                 z3.BoolVal(True))),
                       patterns=[wfe(t)]),
             # the chain an expression token denotes (unfolded where the chain of the token is mentioned)
@@ -90,7 +93,9 @@ def registry():
                 z3.Implies(f_sign, chaink(t, q) == chaink(at(p, 1), q)),
                 z3.Implies(f_chain, chaink(t, q) == cons(at(p, 0), cons(opof(at(p, 1)), chaink(at(p, 2), q)))),
                 z3.Implies(f_br, chaink(t, q) == cons(at(p, 1), q)),
-                z3.Implies(f_brchain, chaink(t, q) == cons(at(p, 1), cons(opof(at(p, 3)), chaink(at(p, 4), q)))))),
+                z3.Implies(f_brchain, chaink(t, q) == cons(at(p, 1), cons(opof(at(p, 3)), chaink(at(p, 4), q)))),
+                z3.Implies(f_brpct, chaink(t, q) == cons(at(p, 1), q)),
+                z3.Implies(f_brpctchain, chaink(t, q) == cons(at(p, 1), cons(opof(at(p, 4)), chaink(at(p, 5), q)))))),
                       patterns=[chaink(t, q)]),
         ]
     reg.axioms.append(axioms)
@@ -99,17 +104,18 @@ def registry():
     reg.external('attr:value', lambda ex, st, args, kw, node: [(st, parts(ex.need_term(args[0])))], 'token.value: the parts of a token')
     reg.external('attr:operator', lambda ex, st, args, kw, node: [(st, opof(ex.need_term(args[0])))],
                  'x.operator: the operator token an operator / sign carrier holds')
+    pcount = z3.Function('c01_percent_count', S.V, I)
+    reg.external('attr:count', lambda ex, st, args, kw, node: [(st, V.Int(pcount(ex.need_term(args[0]))))],
+                 'x.count: the number of percent signs a PercentOperatorToken holds')
     reg.external('attr:__class__', lambda ex, st, args, kw, node: [(st, V.Cls(tcls(ex.need_term(args[0]))))], 'token.__class__')
 
     def construct(ex, st, args, kwargs, node):
         c = ex.need_term(args[0])
         a = [ex.need_term(x) for x in args[1:]]
-        if len(a) != 3:
-            raise NotFormed('constructor arity')
         k = z3.simplify(V.cid(c))
-        if z3.is_int_value(k) and k.as_long() == NT_OPERAND:
-            return [(st, leaf(a[0], a[1], a[2]))]
-        if z3.is_int_value(k) and k.as_long() == NT_OPERATION:
+        if z3.is_int_value(k) and k.as_long() == NT_OPERAND and len(a) == 4:
+            return [(st, leaf4(a[0], a[1], a[2], a[3]))]
+        if z3.is_int_value(k) and k.as_long() == NT_OPERATION and len(a) == 3:
             return [(st, opn(a[0], a[1], a[2]))]
         raise NotFormed('constructor of an unknown class value')
     reg.external('construct:cls', construct, '_Operand(signs, token, brackets) / _Operation(operator, left, right): immutable values')
@@ -163,7 +169,7 @@ def registry():
     reg.spec('c01_entries', lambda p: z3.And(is_('Dict', to_v(p)), entries_ok(to_v(p))), None,
              'every waiting entry (level -> (left tree, operator)) holds a precedence tree whose root is not weaker than the level, '
              'and the operator of that level')
-    reg.spec('c01_wfe', lambda t: wfe(to_v(t)), None, 'the token is a well-formed expression token (one of the seven shapes)')
+    reg.spec('c01_wfe', lambda t: wfe(to_v(t)), None, 'the token is a well-formed expression token (one of the nine shapes)')
     reg.spec('c01_wf', lambda t: wf(to_v(t)), None, 'precedence tree: left root >= operation, right root > operation, everywhere')
     reg.spec('c01_inorder', lambda tree, t0: seqk(to_v(tree), NIL) == chaink(to_v(t0), NIL), None,
              'the in-order sequence of the tree is the chain of operands and operators of the expression token')
